@@ -1256,7 +1256,8 @@ def _make_pianoroll(
 
     onset -= min_time
     if end_time is not None:
-        end_time -= min_time
+        # also accept a one-element array (e.g. the output of a beat map)
+        end_time = np.asarray(end_time, dtype=float).item() - min_time
 
     if pitch_margin > -1:
         pr_pitch -= lowest_pitch
